@@ -159,6 +159,11 @@ impl Family for Driver {
         if cls == "err_io" {
             argv.push(dir.join("missing.slice").display().to_string());
         }
+        let dup = case["dup"].as_bool().unwrap_or(false);
+        if dup {
+            // the first source once more, in another spelling of the same path
+            argv.push(format!("{}/./a.slice", dir.display()));
+        }
         argv.extend(["--diagnostic-format".into(), "json".into(), "--disable-color".into()]);
         if allow {
             argv.extend(["-A".into(), "All".into()]);
@@ -348,7 +353,7 @@ impl Family for Driver {
         let crashed = !res.timed_out && !matches!(exit.as_i64(), Some(0) | Some(1) | Some(2));
         let panicked = stderr.contains("panicked at") || stderr.contains("overflowed its stack");
         let ev = json!({
-            "ev": "run", "cls": cls, "errfile": errfile, "k": case["k"], "dry": dry, "allow": allow, "outdir": outdir, "gens": gens,
+            "ev": "run", "cls": cls, "errfile": errfile, "k": case["k"], "dry": dry, "allow": allow, "dup": dup, "outdir": outdir, "gens": gens,
             "obs": {
                 "exit": exit, "started": started, "captured": captured.iter().map(|c| c.0).collect::<Vec<_>>(), "same_request": same_request,
                 "named": named, "errors": diag_errors, "warnings": diag_warnings, "file_errors": file_errors, "foreign_lines": foreign_lines,
